@@ -114,3 +114,33 @@ pub fn good_flag_int(year: i32, years: i32) -> Option<i32> {
         None
     }
 }
+
+fn ensure(ok: bool) -> Result<(), ()> {
+    if ok {
+        Ok(())
+    } else {
+        Err(())
+    }
+}
+
+fn ensure_nothing(ok: bool) -> Result<(), ()> {
+    if ok {
+        Ok(())
+    } else {
+        Ok(())
+    }
+}
+
+/// must NOT be reported: the guards live in a helper that returns `Ok` exactly when its argument is true, called with `?`.
+pub fn good_guard_helper(year: i32, years: i32) -> Result<i32, ()> {
+    ensure(-300_000 <= year && year <= 300_000)?;
+    ensure(-1_000_000 <= years && years <= 1_000_000)?;
+    Ok(year + years)
+}
+
+/// must be reported: the helper returns `Ok` whatever its argument is, so nothing is guarded.
+pub fn bad_guard_helper(year: i32, years: i32) -> Result<i32, ()> {
+    ensure_nothing(-300_000 <= year && year <= 300_000)?;
+    ensure_nothing(-1_000_000 <= years && years <= 1_000_000)?;
+    Ok(year + years)
+}
